@@ -280,7 +280,7 @@ def c03(run: Run):
         nonmin = any(b.widths for b in f["blocks"])
         run.count("nonminimal-mb" if nonmin else "minimal-mb")
         run.add("xz in=%s" % f["data"].hex(), oracle=exp_ok_out(f["out"]), tag="c03", nontrivial=len(f["blocks"]) > 0)
-        if not nonmin and all(b.props[0] <= 40 for b in f["blocks"]):
+        if not nonmin and all(b.props[0] in (0x16, 40) for b in f["blocks"]):   # props byte 0 = 4 KiB dictionary: liblzma enforces it, lzma-rs ignores the byte (recorded leniency)
             r = liblzma_xz(f["data"])
             spec_check(run, "xz " + f["desc"], r[0] == "ok" and r[1] == f["out"])
     # files from liblzma itself
